@@ -40,6 +40,26 @@ type Ctx struct {
 	Rules       map[string]string // rule id -> one-line description
 	ruleOrder   []string
 	Extra       map[string]any // additional coverage keys (thorough tier)
+	VerifDir    string
+	knownKeys   map[string]bool
+}
+
+// IsKnown reports whether rule|construct is listed as a known finding of this property. Rules use it only to
+// attribute a violation found in an extracted helper to the listed caller it was extracted from; it never turns
+// a violation into a pass.
+func (c *Ctx) IsKnown(rule, construct string) bool {
+	if c.knownKeys == nil {
+		c.knownKeys = map[string]bool{}
+		if c.VerifDir != "" {
+			fs, _ := LoadFindings(filepath.Join(c.VerifDir, "known_findings.jsonl"))
+			for _, f := range fs {
+				if f.Status == "known" && f.Property == c.Prop {
+					c.knownKeys[f.Key] = true
+				}
+			}
+		}
+	}
+	return c.knownKeys[rule+"|"+construct]
 }
 
 func NewCtx(p *Prog, prop, tier string) *Ctx {
@@ -272,7 +292,7 @@ func (c *Ctx) Finish(verifDir string, seed int, start time.Time, explanation str
 		"checker_cmd":         "bin/pcverif check " + c.Prop + " --tier " + c.Tier,
 		"trusted_base":        []string{"go/types", "golang.org/x/tools/go/ssa v0.29.0", "golang.org/x/tools/go/packages", "library models listed in DESIGN.md section 5"},
 		"exhaustive":          true,
-		"notes":               c.Notes,
+		"notes":               append(append([]string{}, c.Notes...), c.P.VocabNotes...),
 	}
 	if len(c.Tables) > 0 {
 		cov["decision_tables"] = c.Tables
